@@ -36,6 +36,57 @@ def _run(cmd, timeout, cwd=None):
         return rc, fo.read().decode('utf-8', 'replace'), fe.read(OUT_CAP).decode('utf-8', 'replace'), time.time() - t0
 
 
+def _strip_clauses(txt):
+    """remove __CPROVER_requires/ensures/assigns/loop_invariant/decreases/frees(...) clauses (balanced parentheses) from preprocessed C"""
+    out = []
+    i = 0
+    pat = re.compile(r'__CPROVER_(requires|ensures|assigns|loop_invariant|decreases|frees)\s*\(')
+    while True:
+        m = pat.search(txt, i)
+        if not m:
+            out.append(txt[i:])
+            break
+        out.append(txt[i:m.start()])
+        j = m.end()
+        depth = 1
+        while j < len(txt) and depth:
+            c = txt[j]
+            if c == '(':
+                depth += 1
+            elif c == ')':
+                depth -= 1
+            j += 1
+        i = j
+    return ''.join(out)
+
+
+def typecheck(cfile, include_dirs=(), defines=()):
+    """goto-cc accepts int <-> pointer mix-ups and mismatched argument lists silently (C); the generated C is therefore
+    first preprocessed, stripped of its contract clauses and compiled with a strict ordinary compiler, so that a lowering
+    slip is a tool error (exit 2) and never a wrong proof.  Returns None or an error text."""
+    import tempfile
+    inc = []
+    for d in include_dirs:
+        inc += ['-I', d]
+    dd = ['-D' + d for d in defines]
+    p = subprocess.run(['gcc', '-std=gnu11', '-E', '-P', '-w', '-DVERIF_CBMC'] + inc + dd + [cfile], stdout=subprocess.PIPE, stderr=subprocess.PIPE, text=True)
+    if p.returncode != 0:
+        return None   # goto-cc will report the real problem
+    txt = _strip_clauses(p.stdout)
+    pre = ('void __CPROVER_assert(_Bool, const char *); void __CPROVER_assume(_Bool); void __CPROVER_havoc_object(void *); void __CPROVER_cover(_Bool);\n'
+           '_Bool __CPROVER_r_ok(const void *, unsigned long); _Bool __CPROVER_w_ok(const void *, unsigned long); _Bool __CPROVER_rw_ok(const void *, unsigned long);\n'
+           'unsigned long __CPROVER_POINTER_OBJECT(const void *); long __CPROVER_POINTER_OFFSET(const void *); _Bool __CPROVER_same_object(const void *, const void *);\n')
+    cmd = ['gcc', '-std=gnu11', '-fsyntax-only', '-w', '-Werror=int-conversion', '-Werror=incompatible-pointer-types',
+           '-Werror=implicit-function-declaration', '-Werror=return-type', '-Werror=implicit-int', '-x', 'c', '-']
+    p = subprocess.run(cmd, input=pre + txt, stdout=subprocess.PIPE, stderr=subprocess.STDOUT, text=True)
+    if p.returncode != 0:
+        errs = [l for l in p.stdout.splitlines() if ' error: ' in l]
+        real = [l for l in errs if not re.search(r'__CPROVER_', l)]
+        if real:
+            return '\n'.join(real[:8])
+    return None
+
+
 class Proof:
     """
     cfile    : generated C file (lowered real code + spliced contracts + models + harness)
@@ -94,6 +145,12 @@ class Proof:
         inc = []
         for d in self.include_dirs:
             inc += ['-I', d]
+        if not os.environ.get('VERIF_NO_TYPECHECK'):
+            terr = typecheck(self.cfile, self.include_dirs, self.defines)
+            if terr:
+                res['status'] = 'tool-error'
+                res['detail'] = 'generated C does not type-check strictly (lowering slip, not a verdict): ' + terr
+                return res
         rc, out, err, dt = _run(['goto-cc', '--function', self.entry, '-DVERIF_CBMC'] + ['-D' + d for d in self.defines] + inc + [self.cfile, '-o', a], 300)
         if rc != 0:
             res['status'] = 'tool-error'
@@ -115,7 +172,7 @@ class Proof:
         res['instrument_log'] = (out + err)[-2000:]
         cmd = ['cbmc', '--object-bits', str(self.object_bits)] + self.solver + ([] if self.no_std_checks else CBMC_FLAGS) + self.flags
         if self.unwind:
-            cmd += ['--unwind', str(self.unwind), '--unwinding-assertions']
+            cmd += ['--unwind', str(self.unwind), '--no-unwinding-assertions' if getattr(self, 'no_unwinding_assertions', False) else '--unwinding-assertions']
         for u in self.unwindset:
             cmd += ['--unwindset', u]
         if self.unwindset and not self.unwind:
